@@ -120,6 +120,10 @@ func checkPath(c *Ctx, F, R []uint16, emit bool) {
 		}
 		return
 	}
+	if want := modelFreeSize(F, R); want > 255 {
+		c.Violate(fmt.Sprintf("BuildBlocks accepted a path whose labels need %d bytes (more than the 255 a frame can carry)", want), "too-big-accepted", rep)
+		return
+	}
 	if want := modelFreeSize(F, R); len(bo.fb) != want {
 		c.Violate(fmt.Sprintf("block size %d, but the maximum live length of the traversal is %d", len(bo.fb), want), "size", rep)
 	}
@@ -313,6 +317,46 @@ func runC12(c *Ctx) error {
 			}
 			checkPath(c, F, R, (lab == 20000 && k <= 100) || (c.Thorough() && k <= 128))
 		}
+	}
+	// the 255-byte boundary, each window on its own: forward labels of one size class, return labels
+	// mixed so that one side (or only the finished return block) lands on 253..258 bytes
+	for i, n := 0, c.Pick(60, 600); i < n; i++ {
+		k := 60 + c.Rng.IntN(45)
+		target := 253 + c.Rng.IntN(6)
+		mk := func(total, k int) []uint16 {
+			// k labels of encoded size 1..3 summing to total (if possible)
+			sizes := make([]int, k)
+			sum := 0
+			for j := range sizes {
+				sizes[j] = 1
+				sum++
+			}
+			for sum < total {
+				j := c.Rng.IntN(k)
+				if sizes[j] < 3 {
+					sizes[j]++
+					sum++
+				} else if sum >= 3*k {
+					break
+				}
+			}
+			out := make([]uint16, k)
+			for j, sz := range sizes {
+				out[j] = []uint16{0, uint16(1 + c.Rng.IntN(126)), uint16(128 + c.Rng.IntN(16000)), uint16(16384 + c.Rng.IntN(40000))}[sz]
+			}
+			return out
+		}
+		var F, R []uint16
+		switch c.Rng.IntN(3) {
+		case 0: // only the return side is at the boundary
+			F, R = mk(k+c.Rng.IntN(k), k), mk(target, k)
+		case 1: // only the forward side
+			F, R = mk(target, k), mk(k+c.Rng.IntN(k), k)
+		default:
+			F, R = mk(target-c.Rng.IntN(4), k), mk(target, k)
+		}
+		checkPath(c, F, R, i%4 == 0)
+		c.Count("boundary-255-family")
 	}
 	// invalid paths: non-zero ends, zero inner labels; any outcome but a panic, same as the model
 	c.CoqSetup("Prelude SeqCorr SwitchLabel SwitchLabelCorr", "c12_bcase", "c12_bok")
